@@ -14,7 +14,7 @@ def main(pid, rnd=1):
     wt = f"/tmp/seed-{pid}" if rnd == 1 else f"/tmp/seed-{pid}-r{rnd}"
     env = dict(os.environ, PYTHONPATH=wt)
     kept = []
-    for i in (1, 2):
+    for i in (1, 2):  # two seeds per round
         diff, demo, meta = (os.path.join(wt, f"{n}{i}.{e}") for n, e in (("seed", "diff"), ("demo", "py"), ("seed", "json")))
         if not all(os.path.exists(p) for p in (diff, demo)):
             print(pid, i, "missing deliverables"); continue
